@@ -110,10 +110,17 @@ impl<'a> LuaGen<'a> {
     }
 
     fn callee(&mut self, depth: usize) -> String {
-        match self.r.below(6) {
+        match self.r.below(8) {
             0 => format!("{}.{}", self.any_name(), self.r.pick(&["f", "g"])),
             1 => format!("{}:{}", self.any_name(), self.r.pick(&["m", "f"])),
             2 if depth < 2 => format!("({})", self.function_expr(depth + 1)),
+            // a parenthesised name, path or operator expression as the callee
+            6 => match self.r.below(4) {
+                0 => format!("({})", self.any_name()),
+                1 => format!("({}.{})", self.any_name(), self.r.pick(&["f", "g"])),
+                2 => format!("({}):{}", self.any_name(), self.r.pick(&["m", "f"])),
+                _ => format!("({} or {})", self.any_name(), self.any_name()),
+            },
             _ => self.any_name().to_string(),
         }
     }
